@@ -67,6 +67,10 @@ def files(variant="main"):
     adm = G.new_file("acme/lab/v1/admin.proto", PKG, deps=G.STD_DEPS + ["acme/lab/v1/lab.proto"])
     ad = G.add_service(adm, "Admin")
     m(ad, "PingAdmin", P + ".GetThingRequest", P + ".Thing", http=("get", "/v1/{name=shelves/*/things/*}:admin"))
+    if variant == "kw_rpc":
+        # rpcs whose snake-case name is a Python keyword / a name the transport itself uses (every transport spells their stub `<name>_`)
+        m(svc, "Import", P + ".GetThingRequest", P + ".Thing", http=("post", "/v1/{name=shelves/*/things/*}:import"), body="*")
+        m(svc, "CreateChannel", P + ".GetThingRequest", P + ".Thing", http=("post", "/v1/{name=shelves/*/things/*}:channel"), body="*")
     if variant == "dup_leaf":
         # method_signature with two dotted fields whose leaf names coincide
         G.add_message(fd, "PairRequest", [G.F("a", 1, T.TYPE_MESSAGE, type_name=P + ".Thing"), G.F("b", 2, T.TYPE_MESSAGE, type_name=P + ".Thing")])
@@ -90,6 +94,7 @@ CONFIGS = {
     "ads": ("python-gapic-templates=ads-templates,old-naming", None),
     "subpackage": ("", None),
     "dup_leaf": ("autogen-snippets=false", None),
+    "kw_rpc": ("autogen-snippets=false,transport=grpc+rest", None),
 }
 
 
@@ -135,7 +140,7 @@ def one_config(name):
     failures, n = [], 0
     label = {"config": name, "options": params}
     try:
-        api, res = G.generate(files(name if name in ("subpackage", "dup_leaf") else "main"), params, service_yaml=yaml_, extra_dep_modules=(status_pb2, locations_pb2, policy_pb2))
+        api, res = G.generate(files(name if name in ("subpackage", "dup_leaf", "kw_rpc") else "main"), params, service_yaml=yaml_, extra_dep_modules=(status_pb2, locations_pb2, policy_pb2))
     except Exception as e:      # noqa
         return {"cases": 1, "failures": [dict(label, what="generation failed", error=repr(e)[:300], **({"known": "proto-sub-package"} if name == "subpackage" else {}))]}
     names = [f.name for f in res.file]
